@@ -18,6 +18,9 @@ try:
     for e in d['findings']:
         if e['status'] != 'fixed':
             continue
+        if e.get('verify_base', base) != base:
+            print('skip %-36s (verify with: tools/verify_fixed.py %s)' % (e['id'], e['verify_base']))
+            continue
         for prop, ws in e['witnesses'].items():
             for i, w in enumerate(ws):
                 fd, p = tempfile.mkstemp(suffix='.json')
